@@ -72,13 +72,15 @@ func sweepSeq(r *h.Run) {
 				hist = append(hist, opSpec{Op: "store", Ver: i})
 			}
 			specs := specsFor(r.Seed*10+int64(nh), nh+2, nh+int(r.Seed))
-			for _, target := range []string{"store", "fetch"} {
-				if target == "fetch" && nh == 0 {
+			for _, target := range []string{"store", "fetch", "clean"} {
+				if target != "store" && nh == 0 {
 					continue
 				}
 				top := opSpec{Op: target, Ver: nh}
-				env := envFor(group)
-				group++
+				if target != "clean" { // CleanEntry runs in the environment of the group before it
+					group++
+				}
+				env := envFor(group - 1)
 				// clean run: number of operations of the target call
 				base := seqScenario{Type: "seq", Kind: kind, Env: env, Versions: specs, Ops: append(append([]opSpec{}, hist...), top)}
 				obs := runSeq(r, base, true)
@@ -102,13 +104,19 @@ func sweepSeq(r *h.Run) {
 						}
 						// quick tier: every operation on the remote entry; a seeded eighth of the purely local ones (half of them for the write-specific faults)
 						if fk == "ctx" { // the caller's context ends inside operation k: cancelled / timed out, alternating
-							fk = []string{"ctxcancel", "ctxdeadline"}[(k+int(r.Seed))%2]
+							fk = []string{"ctxcancel", "ctxdeadline"}[(k/7+int(r.Seed))%2]
 						}
 						thin := 8
 						if strings.HasPrefix(fk, "ctx") {
-							thin = 4
+							thin = 8
+							if target == "store" {
+								thin = 10
+							}
 						} else if fk != "err" && fk != "crash" {
 							thin = 2 // the faults specific to writes have few candidates
+						}
+						if remote && strings.HasPrefix(fk, "ctx") && !r.Thorough() && !r.Deep && (k+int(r.Seed))%3 != 0 {
+							continue // quick tier: the context ends inside every third operation on the remote entry
 						}
 						if !remote && fk != "closelost" && !r.Thorough() && !r.Deep && (k+fi+int(r.Seed))%thin != 0 {
 							continue
